@@ -282,6 +282,9 @@ func TRem(a, b *Term) *Term {
 }
 
 func cmpFold(op string, a, b *Term) *Term {
+	if a == b {
+		return BoolConst(op == "<=" || op == ">=")
+	}
 	if a.sort == SInt {
 		if a.isConst() && b.isConst() {
 			c := a.ival.Cmp(b.ival)
